@@ -7,12 +7,19 @@ is extended only in that case (`extension_only_without_run`); release moves exac
 transactions older than the bound (`release_exact`); with no reader open the next writer releases
 every pending page (`everything_released_without_readers`), while pages an open reader needs are
 retained (C03).  The accounting invariant is preserved along every history (`invariant_always`).
+The plateau: per allocation, the file is extended only while it is small relative to the non-free pages
+(`plateau_pigeonhole`, `extension_implies_small`); along every history of protocol-abiding events, in any
+interleaving of writers and readers and for any number of transactions, the page mark stays at most
+`max numPages₀ (K·(n+2)+1)` when requests are at most `K` pages and at most `n` pages are non-free (live
+or pending) after each event (`plateau_along_every_history`).  No page below the mark is ever lost
+(`no_page_is_lost`, `each_page_in_exactly_one_set`).
 Tie: exact comparison of the real in-memory free list with the model's after every commit, on long
 overwrite / delete / bucket-delete workloads with and without reopen and with a reader held.
 -/
 import Jamm.Proofs.FreelistLemmas
 import Jamm.Proofs.PlateauLemmas
 import Jamm.Proofs.FreelistCover
+import Jamm.Proofs.PlateauHistory
 set_option linter.unusedSectionVars false
 
 namespace Jamm.Props.C10
@@ -59,13 +66,35 @@ theorem plateau_pigeonhole (k N : Nat) (free : List Nat) (hk : 0 < k) (ha : asce
   no_run_bound k N free hk ha hr hN h
 
 /-- hence the file is extended only while it is small relative to the non-free pages:
-`numPages ≤ (k-1)·(n+1) + n + 2` at every extension, so along any history whose non-free count stays
-≤ n and whose requests are ≤ K pages, `numPages ≤ max numPages₀ (K·(n+2)+1)` -/
+`numPages ≤ (k-1)·(n+1) + n + 2` at every extension (the history-level consequence is
+`plateau_along_every_history` below) -/
 theorem extension_implies_small (t : TxFL) (k : Nat) (hk : 0 < k) (ha : ascending t.fl.free = true)
     (hr : ∀ p ∈ t.fl.free, 2 ≤ p ∧ p < t.numPages) (hN : 2 ≤ t.numPages)
     (h : (t.allocate k).2.numPages ≠ t.numPages) :
     t.numPages ≤ (k - 1) * ((t.numPages - 2 - t.fl.free.length) + 1) + (t.numPages - 2 - t.fl.free.length) + 2 :=
   extend_implies_small t k hk ha hr hN h
+
+/-- the plateau along every history: however many transactions run, in whatever interleaving with
+readers, the page mark never exceeds the larger of where it started and `K·(n+2)+1`, where `K` bounds the
+length of every requested run (`requestsLe`) and `n` the number of non-free pages (live, or pending for a
+reader / the next writer) observed after each event (`Sys.nonFreeLe`) -/
+theorem plateau_along_every_history (s : Sys) (evs : List Ev) (s' : Sys) (K n : Nat)
+    (hi : s.invB = true) (h : s.runEvs evs = some s')
+    (hK : requestsLe K evs = true) (hn : s.nonFreeLe n evs = true) :
+    s'.numPages ≤ max s.numPages (K * (n + 2) + 1) :=
+  plateau_history s evs s' K n hi h hK hn
+
+/-- non-vacuity of `plateau_along_every_history`: a history with a reader held across a commit (which
+delays the reuse and costs one extension) satisfies every hypothesis with `K = 1`, `n = 4`; the file ends
+at 6 pages, within the bound `max 4 (1·(4+2)+1) = 7`, and `n = 3` would not do -/
+example :
+    let s0 : Sys := { cur := { txId := 0, reach := [2, 3] }, shared := {}, readers := [], numPages := 4 }
+    let evs : List Ev := [.commitW { freed := [3], requests := [1] }, .beginR,
+                          .commitW { freed := [4], requests := [1] }, .endR 0,
+                          .commitW { freed := [5], requests := [1] }, .commitW { freed := [3], requests := [1] }]
+    s0.invB = true ∧ ((s0.runEvs evs).map (·.numPages)) = some 6 ∧
+    requestsLe 1 evs = true ∧ s0.nonFreeLe 4 evs = true ∧ s0.nonFreeLe 3 evs = false ∧
+    6 ≤ max s0.numPages (1 * (4 + 2) + 1) := by decide
 
 /-- non-vacuity: the freed page of one commit is reused two commits later, the file does not grow -/
 example :
